@@ -525,6 +525,17 @@ def r4_dataflow_shape(ctx):
             ctx.ok("summary-sets|transitive-reads|%s" % fid.split("::")[-1], g.where(rd["transitive_capture_reads"][0]), "transitive_capture_reads")
         else:
             ctx.bad("summary-sets|no-reads|%s" % fid.split("::")[-1], g.where(), "%s no longer accounts for variables read by callees" % fid.split("::")[-1])
+    # a declaration may be dropped at run time only if nothing refers to the variable later - reading OR writing it (a later
+    # assignment through a callee's capture needs the slot the declaration creates)
+    g = ctx.need("analysis::opt::compute_max_local_reference_stmt")
+    rd = set()
+    for gg in ctx.lib.family(g.id):
+        rd |= set(fields_read(gg, "FunctionSummary"))
+    missing = [f_ for f_ in ("transitive_capture_reads", "transitive_capture_writes") if f_ not in rd]
+    if missing:
+        ctx.bad("max-reference|callee-%s-ignored" % "+".join(x.split("_")[-1] for x in missing), g.where(), "compute_max_local_reference_stmt does not count a callee's %s as references to the variable: the declaration of a variable that is only %s inside called functions is pruned, and the callee then finds no slot (panic in assign_bound_local / a read of nothing)" % (" / ".join(missing), "written" if "transitive_capture_writes" in missing else "read"))
+    else:
+        ctx.ok("max-reference|reads-and-writes", g.where(), "callee capture reads and writes both count as later references")
     # block equation: subtract defs, subtract kills, then union uses; reads before writes per op
     ua = ctx.need("analysis::liveness::unused_assignments")
     ctx.touch(ua)
@@ -835,7 +846,52 @@ def r4d_bitset_arithmetic_agrees(ctx):
     ctx.floor("index computations in the liveness bit-set helpers", n, 10)
 
 
-RULES = [("C03-R1", r1_plan_only_from_pure), ("C03-R1b", r1b_capture_write_is_an_effect), ("C03-R2", r2_effect_tables), ("C03-R3", r3_plan_consulted), ("C03-R4", r4_dataflow_shape), ("C03-R4b", r4b_reads_and_writes_reach_the_summaries), ("C03-R4c", r4c_summaries_are_a_transitive_closure), ("C03-R4d", r4d_bitset_arithmetic_agrees), ("C03-R5", r5_loop_cfg_shape)]
+def r4e_fixpoint_flags_are_sticky(ctx):
+    """Every iterate-until-stable loop of the analyses (summaries, liveness, reachability, reachable functions) resets its
+    "changed" flag once per round and only ever raises it with a constant: a computed assignment lets the last element of a
+    round decide, and the iteration stops on a state that is not a fixpoint."""
+    from ..flow import fixpoint_flags
+    n = 0
+    for fn in [f for f in ctx.lib.fns.values() if f.file.startswith("src/analysis/")]:
+        for l, info in fixpoint_flags(fn):
+            n += 1
+            ctx.touch(fn)
+            name = fn.locals[l]["name"] or "_%d" % l
+            computed = [(b, k) for (b, k, c, v) in info if not c]
+            short = parent_fn(fn.id).split("::")[-1]
+            if computed:
+                ctx.bad("fixpoint-flag|%s|overwritten" % short, fn.where(computed[0][0]), "the fixpoint flag `%s` of %s is assigned a computed value inside the loop: the iteration can stop before the sets are stable, and facts that only appear in a later round (a use reached through a back edge, a capture reached through a longer call chain) are missing" % (name, short))
+            else:
+                ctx.ok("fixpoint-flag|%s|sticky" % short, fn.where(info[0][0]), "`%s` is only reset to false and raised to true" % name)
+    ctx.floor("fixpoint flags in the analyses", n, 2)
+
+
+def r3b_plan_queries_read_their_own_table(ctx):
+    """The plan has one table per kind of removable thing; each query answers from the table of its own kind (both tables hold
+    u32 ids, so the wrong one compiles and merely gives answers about other ids)."""
+    from ..mir import fields_read
+    pairs = {"contains_removable_stmt": "removable_stmts", "contains_removable_function_def": "removable_function_defs"}
+    n = 0
+    for meth, field in pairs.items():
+        f = ctx.need("analysis::opt::OptimizationPlan::" + meth)
+        rd = set()
+        for g in ctx.lib.family(f.id):
+            ctx.touch(g)
+            rd |= set(fields_read(g, "OptimizationPlan"))
+        n += 1
+        if rd == {field}:
+            ctx.ok("plan-query|%s" % meth, f.where(), "reads %s" % field)
+        else:
+            ctx.bad("plan-query|%s|%s" % (meth, ",".join(sorted(rd))), f.where(), "%s answers from %s instead of %s: a function (statement) is treated as removed when some *statement* (function) with the same numeric id is - a function that is called is not hoisted, or a live statement is skipped" % (meth, sorted(rd), field))
+    # and build_optimization_plan fills exactly these two tables
+    fields = [x[0] for x in ctx.lib.adt("analysis::opt::OptimizationPlan")["variants"][0]["fields"]]
+    extra = [x for x in fields if x.startswith("removable_") and x not in pairs.values()]
+    if extra:
+        ctx.bad("plan-query|unqueried|%s" % ",".join(extra), "src/analysis/opt.rs", "the plan has a table %s that no audited query reads" % extra)
+    ctx.floor("plan queries", n, 2)
+
+
+RULES = [("C03-R1", r1_plan_only_from_pure), ("C03-R1b", r1b_capture_write_is_an_effect), ("C03-R2", r2_effect_tables), ("C03-R3", r3_plan_consulted), ("C03-R3b", r3b_plan_queries_read_their_own_table), ("C03-R4", r4_dataflow_shape), ("C03-R4b", r4b_reads_and_writes_reach_the_summaries), ("C03-R4c", r4c_summaries_are_a_transitive_closure), ("C03-R4d", r4d_bitset_arithmetic_agrees), ("C03-R4e", r4e_fixpoint_flags_are_sticky), ("C03-R5", r5_loop_cfg_shape)]
 
 EXPLANATION = (
     "R1: in build_optimization_plan every push into the removable sets is edge-dominated by the test that justifies it "
@@ -852,6 +908,9 @@ EXPLANATION = (
 )
 EXPLANATION += (
     " Added after seeded changes were missed: R1b an assignment to an enclosing variable is an effect - the writing statement is classed Impure, or the summaries' class is derived from the capture-write sets, or stmt_effective_class reads them (one of the three must hold); R4b every use of a looked-up variable is recorded for the statement and, on every path, also for the enclosing function (read with read, write with write); R4c summarize_component extends each transitive set of the caller with the same transitive set of the callee, raises the change flag when a set grew, joins the callee's transitive class, and every transitive set starts from the direct set of the same kind."
+)
+EXPLANATION += (
+    " R3b: each query on the pruning plan answers from the table of its own kind (statements / function definitions; both hold u32 ids, so the wrong one type-checks). R4e: every iterate-until-stable loop of the analyses resets its `changed` flag once per round and only raises it with a constant. R4 additionally: the largest local id a function's frame is sized for counts the ids written by the callees' capture sets as well as the function's own, and the transfer function applies kills before gens in every statement class."
 )
 ASSUMPTIONS = ["the tables in effects.rs are the only source of built-in effect classes", "user-function effects enter only through summaries (direct_callees)"]
 TRUSTED = ["rustc nightly MIR/HIR", "nsx exporter", "nsverif table extraction (constant propagation over acyclic table functions)"]
